@@ -235,6 +235,13 @@ class PathEnum:
                                 st['env'][(cc.id, i + 1)] = a
                     else:
                         val = simplify(('call', nid, d.get('fn', '?'), args), d)
+                        if d.get('trait') == 'core::cmp::PartialEq' and d.get('method') in ('eq', 'ne') and len(args) == 2:
+                            pv = []
+                            for a in args:
+                                if a[0] == 'ref':
+                                    pv.append(self.load(st, a[1]))
+                            if len(pv) == 2:
+                                val = ('bin', 'Eq' if d['method'] == 'eq' else 'Ne', pv[0], pv[1], '?')
                         # pointee values of by-reference arguments that point at plain locals (receivers)
                         pointees = []
                         for a in args:
@@ -481,6 +488,14 @@ class Folder:
                 return self.ev(v[2][0])
             if v[0] == 'const' and isinstance(v[1], int) and t[2] in ('0', 'bits'):
                 return v[1]      # payload of a transparent newtype constant (bitflags)
+            if v[0] == 'field' and t[2] in ('0', 'bits') and v[2] in ('0', 'bits'):
+                inner = v
+                while inner[0] == 'field' and inner[2] in ('0', 'bits'):
+                    inner = inner[1]
+                if inner[0] == 'const' and isinstance(inner[1], int):
+                    return inner[1]
+                if inner[0] == 'agg' and len(inner[2]) == 1:
+                    return self.ev(t[1])
             return self.leaf(t)
         if k == 'agg':
             # transparent newtypes (bitflags) fold to their payload
